@@ -97,7 +97,12 @@ class G36:
             nb = r.randint(1, 2)
             base = self.body(1)
             for i in range(nb):
-                base += "{% block b" + str(i) + " %}" + self.body(1) + "{% endblock %}" + self.atom()
+                inner = ""
+                if r.random() < 0.45:
+                    # a block nested in a block (sometimes scoped, inside a loop)
+                    inner = r.choice(["{% block n" + str(i) + " %}" + self.body(1) + "{% endblock %}",
+                                      "{% for x in xs %}{% block n" + str(i) + " scoped %}{{ x }}" + self.atom() + "{% endblock %}{% endfor %}"])
+                base += "{% block b" + str(i) + " %}" + self.body(1) + inner + self.atom() + "{% endblock %}" + self.atom()
             if r.random() < 0.5:
                 base += "{{ self.b0() }}"
             self.aux["base.html"] = base
@@ -140,6 +145,9 @@ FIXED = [
     {"main.html": "{% if f() %}{% extends 'mid.html' %}{% endif %}{% block b %}c1{{ af() }}c2{% endblock %}",
      "mid.html": "{% extends 'base.html' %}{% block a %}m1{{ super() }}m2{% endblock %}",
      "base.html": "B1{% block a %}ba{% endblock %}B2{% block b %}bb1{{ f() }}bb2{% endblock %}B3"},
+    # a block nested in a block, overridden in the child: the consumer stops inside the nested block
+    {"main.html": "{% extends 'base.html' %}{% block n0 %}N1{{ af() }}N2{{ f() }}N3{% endblock %}",
+     "base.html": "B1{% block b0 %}o1{% block n0 %}i{% endblock %}o2{{ f() }}{% endblock %}B2"},
     # generators made by filters, as loop iterable and under |first (known findings C36-F2 / C36-F3)
     {"main.html": "{% for x in xs|select('odd') %}{{ af() }}{{ x }}{{ f() }}{% endfor %}|{% for x in xs|map('string') %}{{ loop.index }}{{ af() }}{% endfor %}"},
     {"main.html": "a{{ xs|select('odd')|first }}b{{ f() }}"},
